@@ -9,7 +9,16 @@
      15 KebabCase s                16 for i, r := range s      17 string([]rune(s))  (s = runes)
      18 Unwrap(Wrap(s,tok),tok)    19 Snake, Snake∘Snake, Kebab, Kebab∘Kebab of s
      20 unicode.ToLower(r)         21 unicode.ToUpper(r)        (s = [r]; check of the oracle table)
+   the hand models of the library functions, compared with the Go library itself
+   (nothing of gogu runs: these validate the trusted scanners, not the code):
+     22 regexp "[-_&]+" ReplaceAllString(s, " ")        23 regexp "[a-zö][A-ZÖ]+" FindAllStringIndex(s, -1)
+     24 strings.TrimSpace(s)       25 strings.Split(s, " ")    26 strings.Index(s, t), strings.LastIndex(s, t)
    output = enc_res of the returned string(s); a recovered panic is [2].
+
+   [c15_agree]: observation = model, EXCEPT for Pad/PadLeft/PadRight with the
+   empty token and size > len(s): the shipped code panics there (theorem
+   C15_pad_empty_token_panics), the property excludes the input, and any other
+   outcome (a maintainer returning the string unchanged, say) is accepted.
 
    [c15_holds] judges an observation against C15_Spec.v (the property), not
    against the model; where the property fixes the result uniquely and the
@@ -34,6 +43,10 @@ Definition rd_rb : reader (res (list Z)) := fun w =>
 Definition snake := snake_case tbl_lower.
 Definition kebab := kebab_case tbl_lower.
 
+(* Pad* asked for more than 2^24 bytes of padding: not evaluated (the model would build the
+   repeated token as a list; the real code would allocate it) and never generated *)
+Definition pad_too_big (s : list Z) (size : Z) : bool := 16777216 <? size - slen s.
+
 Definition c15_run (w : list Z) : list Z :=
   match w with
   | fn :: a =>
@@ -48,11 +61,11 @@ Definition c15_run (w : list Z) : list Z :=
             end in
           let nullary (r : list Z) := match a1 with [] => r | _ => wire_error end in
           match fn with
-          | 1 => match a1 with [off; len] => enc_rb (substr s off len) | _ => wire_error end
+          | 1 => match a1 with [off; len] => enc_rb (substr_go s off len) | _ => wire_error end
           | 2 => match a1 with [idx] => enc_res enc_zss (split_at_index s idx) | _ => wire_error end
-          | 3 => with_size_tok (fun size t => enc_rb (pad s size t))
-          | 4 => with_size_tok (fun size t => enc_rb (pad_left s size t))
-          | 5 => with_size_tok (fun size t => enc_rb (pad_right s size t))
+          | 3 => with_size_tok (fun size t => if pad_too_big s size then [3] else enc_rb (pad s size t))
+          | 4 => with_size_tok (fun size t => if pad_too_big s size then [3] else enc_rb (pad_left s size t))
+          | 5 => with_size_tok (fun size t => if pad_too_big s size then [3] else enc_rb (pad_right s size t))
           | 6 => with_tok (fun t => enc_rb (Ok (wrap s t)))
           | 7 => with_tok (fun t => enc_rb (unwrap s t))
           | 8 => with_tok (fun t => enc_rb (Ok (wrap_all_rune s t)))
@@ -70,6 +83,11 @@ Definition c15_run (w : list Z) : list Z :=
                            ++ enc_rb (kebab s) ++ enc_rb (bind (kebab s) kebab))
           | 20 => match s, a1 with [r], [] => [tbl_lower r] | _, _ => wire_error end
           | 21 => match s, a1 with [r], [] => [tbl_upper r] | _, _ => wire_error end
+          | 22 => nullary (enc_rb (Ok (replace_seps false s)))
+          | 23 => nullary (enc_pairs (find_all_lu 0 0 s))
+          | 24 => nullary (enc_rb (Ok (trim_space s)))
+          | 25 => nullary (enc_res enc_zss (Ok (split_sp s)))
+          | 26 => with_tok (fun t => [index s t; last_index s t])
           | _ => wire_error
           end
       | None => wire_error
@@ -77,7 +95,22 @@ Definition c15_run (w : list Z) : list Z :=
   | [] => wire_error
   end.
 
-Definition c15_agree (w obs : list Z) : bool := zlist_eqb obs (c15_run w).
+(* Pad* with the empty token and size > len(s), or with a giant size: outside the property *)
+Definition pad_outside (w : list Z) : bool :=
+  match w with
+  | fn :: a =>
+      if (fn =? 3) || (fn =? 4) || (fn =? 5) then
+        match rd_zs a with
+        | Some (s, size :: a2) =>
+            pad_too_big s size ||
+            match rd_zs a2 with Some ([], []) => slen s <? size | _ => false end
+        | _ => false
+        end
+      else false
+  | [] => false
+  end.
+
+Definition c15_agree (w obs : list Z) : bool := pad_outside w || zlist_eqb obs (c15_run w).
 
 (* ---------- the property, decided on one observation ---------- *)
 
@@ -89,7 +122,8 @@ Definition pad_holds (mode : Z) (s : list Z) (size : Z) (t obs : list Z) : bool 
   match t with
   | [] => true                              (* empty token: outside the property *)
   | _ =>
-      if size <=? slen s then is_ok obs s
+      if pad_too_big s size then true       (* never generated; see [pad_too_big] *)
+      else if size <=? slen s then is_ok obs s
       else
         match rd_rb obs with
         | Some (Ok out, []) =>
@@ -161,7 +195,7 @@ Definition c15_holds (w obs : list Z) : bool :=
                        | _ => false
                        end
                   else true
-          | _ => zlist_eqb obs (c15_run w)        (* 6 8 16 17 20 21: the reference is the result *)
+          | _ => zlist_eqb obs (c15_run w)        (* 6 8 16 17 20..26: the reference is the result *)
           end
       | None => false
       end
